@@ -3,18 +3,23 @@
    any deterministic interpretation of the data-dependent parts, any global generator state, any
    interleaved activity [env] on the global generator. *)
 From Coq Require Import List Arith ZArith Bool.
-From TLV Require Import Model.Draws Proofs.DrawsProofs Proofs.DrawsProofsSem.
+From TLV Require Import Model.Draws Proofs.DrawsProofs Proofs.DrawsProofsSem Proofs.DrawsProofsPy.
 Import ListNotations.
 
-(* check_random_state: None -> the global generator, int -> a fresh object seeded with it (nothing else
-   changes), generator -> itself, anything else -> error *)
+(* check_random_state: None -> the global generator, int in [0, 2**32) -> a fresh object seeded with it (nothing
+   else changes), any other int -> error (nothing created, nothing drawn), generator -> itself, anything else -> error *)
 Theorem C16_check_random_state : forall (gstate value : Type) (seed : Z -> gstate) (w : lworld gstate value),
   check_random_state gstate value seed VNone w = (Some GGlobal, w) /\
-  (forall s, fst (check_random_state gstate value seed (VInt s) w) = Some (GObj (length (heap w))) /\
+  (forall s, seed_ok s = true -> fst (check_random_state gstate value seed (VInt s) w) = Some (GObj (length (heap w))) /\
              heap (snd (check_random_state gstate value seed (VInt s) w)) = heap w ++ [seed s] /\
              nth_error (heap (snd (check_random_state gstate value seed (VInt s) w))) (length (heap w)) = Some (seed s) /\
              hist (snd (check_random_state gstate value seed (VInt s) w)) = hist w /\
              failed (snd (check_random_state gstate value seed (VInt s) w)) = failed w) /\
+  (forall s, seed_ok s = false ->
+             fst (check_random_state gstate value seed (VInt s) w) = None /\
+             failed (snd (check_random_state gstate value seed (VInt s) w)) = true /\
+             heap (snd (check_random_state gstate value seed (VInt s) w)) = heap w /\
+             hist (snd (check_random_state gstate value seed (VInt s) w)) = hist w) /\
   (forall g, check_random_state gstate value seed (VGen g) w = (Some g, w)) /\
   (fst (check_random_state gstate value seed VBad w) = None /\ failed (snd (check_random_state gstate value seed VBad w)) = true).
 Proof. exact check_random_state_spec. Qed.
@@ -32,13 +37,17 @@ Theorem C16_noninterference : forall (gstate value req : Type) (draw : req -> gs
 Proof. exact ni. Qed.
 Print Assumptions C16_noninterference.
 
-(* same int seed => same draws (hence same result), whatever the global state and the interleaving *)
+(* same int seed -- ANY integer: an out-of-range one makes the call fail, reproducibly -- => same draws (hence same
+   result), whatever the global state and the interleaving *)
 Theorem C16_seeded_reproducible : forall (gstate value req : Type) (draw : req -> gstate -> value * gstate) (seed : Z -> gstate)
     (I : interp value req) (sk : skel) (s : Z),
   global_free sk PInt = true ->
   forall env env' g g',
     fst (call gstate value req draw seed env I sk (HInt s) g) = fst (call gstate value req draw seed env' I sk (HInt s) g').
-Proof. intros gstate value req draw seed I sk s. exact (call_reproducible gstate value req draw seed I sk (HInt s)). Qed.
+Proof.
+  intros gstate value req draw seed I sk s H.
+  exact (proj1 (gfw_reproducible gstate value req draw seed I sk (HInt s) (global_free_gfw sk H) eq_refl)).
+Qed.
 Print Assumptions C16_seeded_reproducible.
 
 (* an int-seeded call leaves the global generator untouched (alone: bit-identical state; under
@@ -51,9 +60,10 @@ Theorem C16_global_untouched : forall (gstate value req : Type) (draw : req -> g
   (forall env g, ~ In GGlobal (o_srcs (fst (call gstate value req draw seed env I sk (HInt s) g)))).
 Proof.
   intros gstate value req draw seed I sk s H.
-  exact (conj (proj1 (call_global_untouched gstate value req draw seed I sk (HInt s) H))
-        (conj (proj2 (call_global_untouched gstate value req draw seed I sk (HInt s) H))
-              (call_no_global_source gstate value req draw seed I sk (HInt s) H))).
+  pose proof (gfw_reproducible gstate value req draw seed I sk (HInt s) (global_free_gfw sk H) eq_refl) as (_ & U & N).
+  destruct (gfw_call gstate value req draw seed I sk (HInt s) (global_free_gfw sk H) eq_refl) as (o & k & _ & _ & G).
+  split; [exact U|]. split; [|exact N].
+  intro env. exists k. intro g. now rewrite G.
 Qed.
 Print Assumptions C16_global_untouched.
 
@@ -167,8 +177,7 @@ Print Assumptions C16_global_draw_observable.
 (* a second static analysis, precise at joins (the rng variable may be bound in one branch only; a draw on an unset
    rng raises, it does not reach the global generator): if it accepts a skeleton then, for random_state an int / a
    generator object other than the global one / junk, every run returns the same outcome whatever the global state
-   and the interleaving, the global generator is untouched and never drawn from.  This is the analysis applied to
-   the skeletons that corr:C16-static extracts from the source. *)
+   and the interleaving, the global generator is untouched and never drawn from. *)
 Theorem C16_join_precise_analysis : forall (gstate value req : Type) (draw : req -> gstate -> value * gstate) (seed : Z -> gstate)
     (I : interp value req) (sk : skel) (a : rsarg gstate),
   global_free_w sk = true -> safe_arg gstate a = true ->
@@ -177,6 +186,34 @@ Theorem C16_join_precise_analysis : forall (gstate value req : Type) (draw : req
   (forall env g, ~ In GGlobal (o_srcs (fst (call gstate value req draw seed env I sk a g)))).
 Proof. exact gfw_reproducible. Qed.
 Print Assumptions C16_join_precise_analysis.
+
+(* THE SOURCE-LEVEL LANGUAGE.  corr:C16-static writes what it reads in the source as a [pskel]: named variables per
+   scope (variable 0 = the random_state argument), `x = e`, `x = check_random_state(e)`, draws on a name, numpy.random
+   draws, calls passing an expression.  Its semantics [prun] keeps every name apart (several generators per scope,
+   aliases of the argument, re-assigned arguments, np.random used as an object; a draw on a name that holds no
+   generator raises).  If the analysis [pgf] accepts a skeleton ([pglobal_free]) then for random_state an int (any),
+   a generator object other than the global one, or junk: every run of the call returns the same outcome whatever the
+   global state and the interleaving, and the global generator is moved by the environment alone.  So the treatment
+   of check_random_state bindings and aliases in the static correspondence is proved, not trusted; what remains
+   trusted there is the ast-to-pskel transcription (harness) *)
+Theorem C16_source_analysis : forall (gstate value req : Type) (draw : req -> gstate -> value * gstate) (seed : Z -> gstate)
+    (I : interp value req) (sk : pskel) (a : rsarg gstate),
+  pglobal_free sk = true -> safe_arg gstate a = true ->
+  (forall env env' g g', fst (pcall gstate value req draw seed env I sk a g) = fst (pcall gstate value req draw seed env' I sk a g')) /\
+  (forall g, snd (pcall gstate value req draw seed (fun _ x => x) I sk a g) = g) /\
+  (forall env, exists k, forall g, snd (pcall gstate value req draw seed env I sk a g) = advance gstate env 0 k g).
+Proof. exact pgf_reproducible. Qed.
+Print Assumptions C16_source_analysis.
+
+(* its semantics without a global generator is exact whenever it is defined (no analysis involved) *)
+Theorem C16_source_local_semantics_exact : forall (gstate value req : Type) (draw : req -> gstate -> value * gstate) (seed : Z -> gstate)
+    (env : nat -> gstate -> gstate) (I : interp value req) (sk : pskel) (e : list rsval) (w : lworld gstate value)
+    (e1 : list rsval) (w1 : lworld gstate value),
+  prun_local gstate value req draw seed I sk e w = Some (e1, w1) ->
+  exists k, ticks w1 = ticks w + k /\
+            forall g, prun gstate value req draw seed env I sk e w g = (e1, w1, advance gstate env (ticks w) k g).
+Proof. exact prun_local_agrees. Qed.
+Print Assumptions C16_source_local_semantics_exact.
 
 (* it accepts everything the first analysis accepts (in particular every hand-written seedable skeleton) *)
 Theorem C16_join_precise_subsumes : forall sk : skel, global_free sk PInt = true -> global_free_w sk = true.
@@ -193,6 +230,48 @@ Theorem C16_history_results_any : forall (gstate value req : Type) (draw : req -
   nth_error (fst (fst (run_hist gstate value req draw seed h g insts))) i = Some (Some o).
 Proof. exact history_results_sem. Qed.
 Print Assumptions C16_history_results_any.
+
+(* generator OBJECTS in histories: any call accepted by the join-precise analysis whose random_state is an int, a
+   generator object of the caller's (in whatever state it is at that moment) or junk leaves the global generator
+   exactly as it found it, wherever it occurs ... *)
+Theorem C16_history_object_calls : forall (gstate value req : Type) (draw : req -> gstate -> value * gstate) (seed : Z -> gstate)
+    (h : list (event gstate value req)) (i : nat) (g : gstate) (insts : list gstate) (ip : interp value req) (sk : skel) (a : hrs),
+  nth_error h i = Some (ECall ip sk a) -> global_free_w sk = true ->
+  safe_arg gstate (resolve gstate a (snd (state_at gstate value req draw seed h i g insts))) = true ->
+  fst (state_at gstate value req draw seed h (S i) g insts) = fst (state_at gstate value req draw seed h i g insts).
+Proof. exact history_step_global_untouched. Qed.
+Print Assumptions C16_history_object_calls.
+
+(* ... so a process all of whose library calls are of that kind ends with the global generator exactly where the
+   rest of the process put it ([env_only] folds the EEnv events alone) *)
+Theorem C16_history_global_env_only : forall (gstate value req : Type) (draw : req -> gstate -> value * gstate) (seed : Z -> gstate)
+    (h : list (event gstate value req)) (g : gstate) (insts : list gstate),
+  forallb (call_safe gstate value req) h = true ->
+  snd (fst (run_hist gstate value req draw seed h g insts)) = env_only gstate value req h g.
+Proof. exact history_global_env_only. Qed.
+Print Assumptions C16_history_global_env_only.
+
+(* C16_history_global with the join-precise analysis as the erasure criterion *)
+Theorem C16_history_global_w : forall (gstate value req : Type) (draw : req -> gstate -> value * gstate) (seed : Z -> gstate)
+    (h : list (event gstate value req)) (g : gstate) (insts : list gstate),
+  snd (fst (run_hist gstate value req draw seed h g insts)) =
+  snd (fst (run_hist gstate value req draw seed (erase_w gstate value req h) g insts)) /\
+  snd (run_hist gstate value req draw seed h g insts) = snd (run_hist gstate value req draw seed (erase_w gstate value req h) g insts).
+Proof. exact history_global_w. Qed.
+Print Assumptions C16_history_global_w.
+
+(* out-of-range int seeds: every entry point that always reaches check_random_state with its own argument
+   ([always_checks]; e.g. not tucker with SVD init, whose truncated SVD never looks at random_state) fails -- the
+   ValueError of RandomState(seed) -- for ALL options, global states and interleavings *)
+Theorem C16_invalid_seed_rejected : forall (gstate value req : Type) (draw : req -> gstate -> value * gstate) (seed : Z -> gstate)
+    (I : interp value req) (e : ep) (o : opts) (s : Z),
+  always_checks e = true -> seed_ok s = false ->
+  forall env g, o_failed (fst (call gstate value req draw seed env I (skeleton e o) (HInt s) g)) = true.
+Proof.
+  intros gstate value req draw seed I e o s A Hs.
+  exact (invalid_seed_rejected gstate value req draw seed I (skeleton e o) s (always_checks_must e o A) Hs).
+Qed.
+Print Assumptions C16_invalid_seed_rejected.
 
 (* fit twice / call twice in one process: same entry point, same arguments, same int seed => same outcome,
    wherever the two calls occur *)
@@ -308,4 +387,40 @@ Example C16_join_precise_examples :
   global_free_w (Call ARaw (For 0 3 (Seq (Branch 0 Skip (Draw 1)) (Call ANone Check)))) = true /\
   global_free_w (For 0 3 (Seq (Branch 0 Skip (Draw 1)) (Seq (Call ANone Check) (Call ARng (Seq Check (Draw 2)))))) = true /\
   safe_arg Z (HInt 3%Z) = true /\ safe_arg Z (HInst 5%Z) = true /\ safe_arg Z HNone = false.
+Proof. repeat split; reflexivity. Qed.
+
+(* seed range: non-vacuity (both classes of ints exist; parafac always checks, tucker does not; an object call in a
+   history: the instance advances, the global generator does not) *)
+Example C16_seed_range_examples :
+  seed_ok 0%Z = true /\ seed_ok 4294967295%Z = true /\ seed_ok 4294967296%Z = false /\ seed_ok (-1)%Z = false /\
+  always_checks (E_estimator E_parafac) = true /\ always_checks E_tucker = false /\
+  model_projection E_parafac ex_opts (HInt (-1)%Z) = (false, false, false, false, false) /\
+  model_projection E_tucker {| o_shape := [4; 3; 5]; o_rank := 2; o_init := ISvd; o_svd := STruncated; o_mask := false;
+                               o_nrep := 0; o_iters := 2; o_aux := 0 |} (HInt (-1)%Z) = (true, false, false, false, false) /\
+  (let sk := skeleton E_cp_regressor ex_opts in
+   let h := [ENew 3%Z; ECall toy_interp sk (RInst 0); EEnv (fun g => (g + 5)%Z); ECall toy_interp sk (RInst 0)] in
+   forallb (call_safe Z Z nat) h = true /\
+   snd (fst (run_hist Z Z nat toy_draw toy_seed h 0%Z [])) = 5%Z /\
+   snd (run_hist Z Z nat toy_draw toy_seed h 0%Z []) <> [toy_seed 3%Z]).
+Proof. repeat split; try reflexivity. vm_compute. discriminate. Qed.
+
+(* the source-level analysis: two generator names; a generator bound in one branch and an alias of the argument in
+   the other (sample_khatri_rao); the argument re-bound to the checked generator and passed on; np.random used as an
+   object; a generator that MAY have been re-bound to np.random; check_random_state(None); a callee that gets no
+   random_state and draws; a loop that re-binds its generator from the argument; and the two runs of an accepted
+   skeleton from different global states *)
+Example C16_source_analysis_examples :
+  pglobal_free (PSeq (PCheck 1 (PVar 0)) (PSeq (PCheck 2 (PVar 0)) (PSeq (PDraw 1 0) (PDraw 2 0)))) = true /\
+  pglobal_free (PSeq (PBranch 0 (PCheck 1 (PVar 0)) (PAssign 1 (PVar 0))) (PFor 0 3 (PDraw 1 0))) = true /\
+  pglobal_free (PSeq (PCheck 1 (PVar 0)) (PSeq (PAssign 0 (PVar 1)) (PCall (PVar 0) (PSeq (PCheck 1 (PVar 0)) (PDraw 1 0))))) = true /\
+  pglobal_free (PSeq (PAssign 1 PGlobE) (PDraw 1 0)) = false /\
+  pglobal_free (PSeq (PCheck 1 (PVar 0)) (PSeq (PBranch 0 (PAssign 1 PGlobE) PSkip) (PDraw 1 0))) = false /\
+  pglobal_free (PSeq (PCheck 1 PNoneE) (PDraw 1 0)) = false /\
+  pglobal_free (PCall PNoneE (PSeq (PCheck 1 (PVar 0)) (PDraw 1 0))) = false /\
+  pglobal_free (PSeq (PCheck 1 (PVar 0)) (PFor 0 3 (PSeq (PDraw 1 0) (PBranch 0 (PCheck 1 (PVar 0)) PSkip)))) = true /\
+  (let sk := PSeq (PBranch 0 (PCheck 1 (PVar 0)) (PAssign 1 (PVar 0))) (PFor 0 3 (PDraw 1 0)) in
+   fst (pcall Z Z nat toy_draw toy_seed toy_env toy_interp sk (HInt 3%Z) 0%Z) =
+   fst (pcall Z Z nat toy_draw toy_seed toy_env toy_interp sk (HInt 3%Z) 9%Z) /\
+   length (o_hist (fst (pcall Z Z nat toy_draw toy_seed toy_env toy_interp sk (HInt 3%Z) 0%Z))) = 3 /\
+   snd (pcall Z Z nat toy_draw toy_seed toy_env toy_interp (PSeq (PAssign 1 PGlobE) (PDraw 1 0)) (HInt 3%Z) 0%Z) = 1%Z).
 Proof. repeat split; reflexivity. Qed.
